@@ -42,7 +42,8 @@ fn push(out: &mut RunOut, props: &[&'static str], sig: &str, detail: String) {
 fn foreign_image_case(p: &Profile, seed: u64, run: u64, ov: &Override, out: &mut RunOut) -> Option<Cfg> {
     let s = mix(mix(seed, hash_str(p.id)), run);
     let mut rng = Rng::new(s);
-    let mut cfg = ov.cfg.clone().unwrap_or_else(|| gen_cfg(&mut rng, &p.gen));
+    let gcfg = gen_cfg(&mut rng, &p.gen);
+    let mut cfg = ov.cfg.clone().unwrap_or(gcfg);
     if ov.cfg.is_none() && rng.chance(1, 3) {
         // default parameters, as most users open images
         cfg.l2_cache = None;
